@@ -32,6 +32,12 @@ SemIntCompare(op, A, B) == SemBoolResult(A, B, LAMBDA a, b : IntCmp(op, a, b))
 SemBoolLogic(op, A, B) == IF A.dt # "bool" THEN NoCrash ELSE SemBoolResult(A, B, LAMBDA a, b : BoolLogic(op, a, b))
 SemNot(A) == IF A.dt # "bool" THEN NoCrash ELSE MustValue(<<T("bool", A.shape, [k \in 1..Len(A.data) |-> ~A.data[k]])>>)
 
+\* PRelu on integer-valued tensors: slope * x for x < 0, x otherwise; the slope is stretched to the shape of x only
+SemIntPRelu(X, S) ==
+   IF X.dt # S.dt THEN MustError
+   ELSE IF ~UCompat(X.shape, S.shape) THEN MustError
+   ELSE MustValue(<<Mk(X.dt, X.shape, LAMBDA idx : LET x == At(X, idx) IN IF x < 0 THEN At(S, BIndex(idx, S.shape)) * x ELSE x)>>)
+
 SupportedOps ==
    {"Abs", "Acos", "Acosh", "Add", "And", "ArgMax", "Asin", "Asinh", "Atan", "Atanh", "Cast", "Concat", "Constant", "ConstantOfShape",
     "Conv", "Cos", "Cosh", "Div", "Equal", "Expand", "Flatten", "GRU", "Gather", "Gemm", "Greater", "GreaterOrEqual", "LSTM", "Less",
@@ -42,7 +48,7 @@ SupportedOps ==
 \* operators whose semantics this module dispatches (the program generators draw from these)
 Catalogue == {"Add", "Sub", "Mul", "Relu", "Abs", "Gemm", "MatMul", "Flatten", "Transpose", "Concat", "Reshape", "Squeeze", "Unsqueeze",
               "Shape", "Slice", "Gather", "Expand", "Constant", "Conv", "RNN", "GRU", "LSTM", "ReduceMax", "ReduceMin", "ArgMax", "Scaler", "LinearRegressor",
-              "Equal", "Less", "LessOrEqual", "Greater", "GreaterOrEqual", "And", "Or", "Xor", "Not"}
+              "Equal", "Less", "LessOrEqual", "Greater", "GreaterOrEqual", "And", "Or", "Xor", "Not", "PRelu"}
 
 In_(inputs, i) == IF i <= Len(inputs) THEN inputs[i] ELSE Nil
 SliceIntsOf(inputs) ==
@@ -55,7 +61,7 @@ SliceIntsOf(inputs) ==
 AllTypes == {"f32", "f64", "i8", "i16", "i32", "i64", "u8", "u16", "u32", "u64", "bool"}
 CoreTypes(op) ==
    CASE op \in IntBinOps \cup IntCmpOps -> {"f32", "f64", "i32", "i64"}
-     [] op \in {"Relu", "Abs"} -> {"f32", "f64"}
+     [] op \in {"Relu", "Abs", "PRelu"} -> {"f32", "f64"}
      [] op \in {"Gemm", "MatMul", "Scaler", "LinearRegressor", "RNN", "GRU", "LSTM"} -> {"f32"}
      [] op = "Conv" -> {"f32", "f64"}
      [] op \in {"ReduceMax", "ReduceMin", "ArgMax"} -> {"f32", "f64", "i32", "i64"}
@@ -67,6 +73,7 @@ NodeSem0(op, attrs, inputs, nout) ==
      [] op \in IntCmpOps   -> SemIntCompare(op, inputs[1], inputs[2])
      [] op \in BoolLogicOps -> SemBoolLogic(op, inputs[1], inputs[2])
      [] op = "Not"       -> SemNot(inputs[1])
+     [] op = "PRelu"     -> SemIntPRelu(inputs[1], inputs[2])
      [] op = "Gemm"      -> SemGemm(inputs[1], inputs[2], In_(inputs, 3), attrs)
      [] op = "MatMul"    -> SemMatMul(inputs[1], inputs[2])
      [] op = "Flatten"   -> SemFlatten(inputs[1], AttrV(attrs, "axis", 1))
